@@ -25,8 +25,12 @@ MANIFEST = dict(
          'real code by the direct oracle. Tied to the code by differential runs (real compiler, real generated classes, real '
          'serializer vs the compiled model) on a fixed grid of one-field / one-member specs (types x literals around every bound), '
          'random struct chains, hand-written seeds and generated specs; the direct oracle evaluates the property itself on the real '
-         'artefacts for every defaulted field and every example label (nested references, lists / maps of references, subtypes, '
-         'unions of structs, inherited fields are covered by the oracle only).',
+         'artefacts for every defaulted field (read on an instance of the declaring class and of every class that inherits it) '
+         'and every example label (nested references, lists / maps of references, subtypes, '
+         'unions of structs, inherited fields are covered by the oracle only: reference grid = shape of the referenced type x '
+         'container x position of the member x declaration order; shape grid = number of members / tags / references of '
+         'union and subtype-tree examples against the documented verdict); the compact form of every example '
+         '(get_examples(compact=True)) must decode strictly and encode to the full form.',
     note='Trusted: Lean kernel, translator, correspondence generators, CPython re / float() / strptime / base64 as external calls '
          '(tables computed by the harness with the reference libraries). Hypotheses the proofs need and the driver evaluates on every '
          'real environment: unionsAgree / envWF / envWFX / tyKnown. Not judged: the implicit example of a catch-all tag and, by '
@@ -48,14 +52,25 @@ MANIFEST = dict(
 
 
 def run(ck):
-    ck.build_and_audit()
-    de.suite_corpus(ck)
-    de.suite_default_grid(ck)
-    de.suite_example_grid(ck)
-    de.suite_flat_examples(ck, ck.scale(150, 2500))
-    builts = de.build_generated(ck, [('rt', ck.scale(25, 200)), ("default", ck.scale(25, 200)), ("fe", ck.scale(30, 300))])
-    de.suite_spec_defaults(ck, builts)
-    de.suite_spec_examples(ck, builts)
+    import time
+    timings = {}
+
+    def timed(name, f, *a):
+        t0, c0 = time.time(), time.process_time()
+        r = f(*a)
+        timings[name] = [round(time.time() - t0, 1), round(time.process_time() - c0, 1)]      # wall, cpu of this process
+        return r
+    timed('build_and_audit', ck.build_and_audit)
+    timed('corpus', de.suite_corpus, ck)
+    timed('default_grid', de.suite_default_grid, ck)
+    timed('example_grid', de.suite_example_grid, ck)
+    timed('example_shapes', de.suite_example_shapes, ck)
+    timed('reference_grid', de.suite_reference_grid, ck)
+    timed('flat_examples', de.suite_flat_examples, ck, ck.scale(150, 2500))
+    builts = timed('build_generated', de.build_generated, ck,
+                   [('rt', ck.scale(25, 200)), ("default", ck.scale(25, 200)), ("fe", ck.scale(30, 300))])
+    timed('spec_defaults', de.suite_spec_defaults, ck, builts)
+    timed('spec_examples', de.suite_spec_examples, ck, builts)
     ck.assumptions.extend([
         'the compile-time description sent to the model (CApi) is read from the IR objects by the harness (field order, defaults, '
         'tag types); the class tables the model derives from it (envOfC) are compared with the real classes only through behaviour '
@@ -66,7 +81,7 @@ def run(ck):
             'float(), AssertionError in Union.check, ValueError in Map.check_example, TypeError in Union._compute_example) are '
             'spec errors or accepted inputs since the repairs of notes/c03_fix_notes.md; the model follows and any exception other '
             'than InvalidSpec escaping the compiler now shows as a correspondence disagreement (the model never answers crash)')
-    return ck.finish(rule=de.RULE)
+    return ck.finish(rule=de.RULE, extra_cov={'suite_seconds_wall_cpu': timings})
 
 
 def replay(ck, path):
